@@ -686,21 +686,30 @@ theorem bitflip_detected_interest_name_all (E : EncSpecs)
 
 /-! ### notes: what the all-input invariant does NOT give (concrete inputs, evaluated on the model)
 
-  The digest-covered range is `V[digestCoverStart, digestCoverStart + n)`, not necessarily the suffix that
-  starts at the ApplicationParameters element:
+  In the MODEL (`C03/Parse.lean`) the digest-covered range is `V[digestCoverStart, digestCoverStart + n)`,
+  not necessarily the suffix that starts at the ApplicationParameters element:
 
   * an unknown non-critical element that arrives when `progress` stands at slot 14 (i.e. after
     ApplicationParameters and two further elements, known or unknown) advances `progress` WITHOUT the
-    slot-14 action, and `ordFinish` has nothing left to do: `digestCovered` stays empty, so
-    `checkInterest` compares the digest component with `H []`.  Interest value
+    slot-14 action (`ordLoop`, branch `none`: `q + 1`), and `ordFinish` has nothing left to do:
+    `digestCovered` stays empty, so `checkInterest` compares the digest component with `H []`.
+    Interest value
     `07 25 | 08 01 61 | 02 20 SHA256("") || 24 03 01 02 03 || 26 00 || 26 00 || 26 00`
     (Name /a/params-sha256=e3b0c442…, ApplicationParameters 010203, three unknown elements of type 38)
-    is ACCEPTED by `readInterest Sha.sha256` although the digest does not cover the parameters; so is
+    is accepted by the model's `readInterest Sha.sha256`; so is
     `… || 24 03 09 09 09 || 2c 03 1b 01 00 || 2e 02 07 07 || 26 00` (signed, one trailing unknown element).
     The same value without the trailing unknown elements is rejected.
   * a known element after `progress` has passed slot 13 ends the range at the start of that element.
 
-  Neither affects `bitflip_detected_interest_digest`: the hash of whatever range is compared would have
-  to collide with the original digest input (`hinj`). -/
+  MODEL DIVERGENCE, not a decoder defect: the Go decoder (`spec.Spec{}.ReadInterest` of the checked tree,
+  run on exactly these two packets) REJECTS both ("the sha256 digest is missing or incorrect").  The
+  generated `Parse` finishes by `handled_<field>` flags (every marker not set in the loop is set at the
+  end, whatever `progress` is), and since the fix "ordered TLV models lose the field following an
+  unknown element" a skipped unknown element no longer advances `progress`; the model's `none` branch
+  (`q + 1`) and its progress-based `ordFinish` describe neither.
+
+  None of this affects `bitflip_detected_interest_digest`: the hash of whatever range is compared would
+  have to collide with the original digest input (`hinj`); and the proofs of `K_ti` do not depend on
+  whether the `none` branch advances `q`. -/
 
 end Ndn.C12
